@@ -3,6 +3,7 @@ CONSTANTS
   DEV_AccUnknownTmpNoReturn = FALSE
   DEV_NoteCallBadTopicPanics = FALSE
   DEV_DelTopicBadNamePanics = FALSE
+  TrackTok = TRUE
   DEV_LeaveOboSilent = FALSE
   AlphaName = "q"
   MaxLen = 3
